@@ -371,6 +371,8 @@ class Body:
                     return ("ref", base[1] + pl[2:])
                 if base[0] == "place":
                     return ("ref", base[1] + pl[1:])
+                if base[0] in ("call", "callop") and len(pl) == 2:
+                    return base  # `&*f(..)` re-borrows the reference returned by f
             return ("ref", pl)
         if rv == "cast":
             return ("cast", self.expr(r["o"], depth - 1), r["ty"], r["kind"])
